@@ -117,3 +117,5 @@ def mtl_rejects(t):
 
 CHECKS.append(mtl_rejects(1))
 THOROUGH_CHECKS = [mtl_rejects(2)]
+
+VALIDATE_LAYOUT_PRIMS = True  # [V] the layout primitive contracts are sampled against real torch on every run
